@@ -806,6 +806,14 @@ Section Flat.
     end.
 End Flat.
 
+(* An instance of a declaration that has child declarations, or of a group (csv2 child_records /
+   record_group, fixedlength2 child_envelopes / envelope_group, EDI segment_group): the node
+   with the instances of its children below it.  It is attached, filtered and removed as ONE
+   subtree: [flat_run] at R := hrec, rsize := hsize. *)
+Inductive hrec := HRec (own : nat) (kids : list hrec).
+Fixpoint hsize (h : hrec) : nat :=
+  let 'HRec own kids := h in own + fold_right (fun k n => hsize k + n) 0 kids.
+
 (* One C17 case of a record-at-a-time reader: record sizes with the filter outcome, the nodes
    outside the records, and the reachable-tree size the harness measured at every delivery. *)
 Record fcase := mkFCase {
